@@ -31,6 +31,8 @@ func checkC01(c *Ctx) {
 	ruleUTF7Chunking(c, "C01.h", "C01.h", "C01.h")
 	c.rule("C01.j", "no stateful transformer is shared through a package-level variable (mailbox names decode independently on every connection)", 1)
 	ruleNoSharedTransformer(c, "C01.j")
+	c.rule("C01.k", "the wire encoder never re-encodes a string rune by rune (bytes that are not valid UTF-8 survive)", 1)
+	ruleNoRuneReencoding(c, "C01.k")
 	c.rule("C01.i", "quoted-string scanner: the closing-quote and escape tests see unescaped bytes only", 2)
 	ruleQuotedScanner(c, "C01.i")
 	if list := c.P.Func("internal/imapwire", "Decoder", "List"); list != nil {
